@@ -84,7 +84,7 @@ def target_name(style, dn):
     return {"same": dn, "explicit": "other", "prefixstar": "p_" + dn, "star": "cp_" + dn}[style]
 
 
-def mk_classes(style, proto, topstyle=None):
+def mk_classes(style, proto, topstyle=None, subclassing="none"):
     """T <- D (deferring attribute `dn`, prefix style `style`, class prefix 'cp_') [<- DD (attribute x, prefix style `topstyle`,
     class prefix 'zz_')].  T carries every name any (mis)resolution could produce, each with a distinct default."""
     kind = PrototypedFrom if proto else DelegatesTo
@@ -96,12 +96,23 @@ def mk_classes(style, proto, topstyle=None):
             if cand not in names:
                 names.append(cand)
     T = type("T", (HasTraits,), {n_: Range(0, 100, 60 + i) for i, n_ in enumerate(names)})
-    D = type("D", (HasTraits,), {"__prefix__": "cp_", "t": Instance(T), dn: kind("t", **STYLES[style])})
+    if subclassing == "redefine":
+        # the base class declares the deferring attribute differently (explicit name, another target attribute); the subclass
+        # in use redefines it in the style under test: nothing of the base declaration may survive
+        base_decl = kind("t", prefix="other" if tn != "other" else "x")
+        Dbase = type("Dbase", (HasTraits,), {"__prefix__": "cp_", "t": Instance(T), dn: base_decl})
+        D = type("D", (Dbase,), {dn: kind("t", **STYLES[style])})
+    else:
+        D = type("D", (HasTraits,), {"__prefix__": "cp_", "t": Instance(T), dn: kind("t", **STYLES[style])})
+        if subclassing == "inherit":
+            D = type("Dsub", (D,), {})          # declares nothing itself: __prefix__ and the deferring trait are inherited
     DD = type("DD", (HasTraits,), {"__prefix__": TOP_PREFIX, "d": Instance(D), "x": kind("d", **STYLES[topstyle or "same"])})
+    if subclassing == "inherit":
+        DD = type("DDsub", (DD,), {})
     return T, D, DD, tn
 
 
-def history_harness(style, proto, k, chain):
+def history_harness(style, proto, k, chain, subclassing="none"):
     """chain: None (depth 1) or the prefix style of the upper level of a depth-2 chain"""
     def harness(ex):
         errors = []
@@ -112,7 +123,8 @@ def history_harness(style, proto, k, chain):
             pop_exception_handler()
 
     def body(ex, errors):
-        T, D, DD, tn = mk_classes(style, proto, chain)
+        T, D, DD, tn = mk_classes(style, proto, chain, subclassing)
+        decoy = "other" if tn != "other" else "x"          # another attribute of the delegate: never the target
         t1, t2 = T(), T()
         setattr(t2, tn, 50)
         d = D(t=t1)
@@ -127,7 +139,7 @@ def history_harness(style, proto, k, chain):
         trace = []
         val = 10
         for step in range(k):
-            op = ex.choice("op%d" % step, 6)
+            op = ex.choice("op%d" % step, 8)
             val += 1
             calls.clear()
             obs_calls.clear()
@@ -169,6 +181,18 @@ def history_harness(style, proto, k, chain):
                 ex.check(rej, "an assignment invalid for the target's trait is rejected")
                 ex.check(getattr(cur, tn) == before_t and (not proto or local or "x" not in top.__dict__), "a rejected assignment changes nothing")
                 trace.append("invalid")
+            elif op == 6:                                 # assign, via the deferring object, the target's CURRENT value (same object)
+                same = getattr(cur, tn)
+                top.x = same
+                trace.append("top=current")
+                if proto:
+                    local, local_val = True, same      # a local value all the same: from now on independent of the prototype
+                    ex.check("x" in top.__dict__ and top.__dict__["x"] is same,
+                             "PrototypedFrom: an assignment is stored locally also when it equals the prototype's current value")
+            elif op == 7:                                 # another attribute of the current delegate changes: not the target
+                setattr(cur, decoy, val)
+                ex.check(calls == [] and obs_calls == [], "a change of another attribute of the delegate does not notify")
+                trace.append("decoy=%d" % val)
             else:                                         # change on the delegate that is NOT current: no effect
                 otherd = t2 if cur is t1 else t1
                 setattr(otherd, tn, val)
@@ -253,11 +277,12 @@ def obligations(tier, build):
     K = 3 if tier == "quick" else 4
     for style in STYLES:
         for proto in (False, True):
-            for chain in (None,) + tuple(STYLES):
-                obs.append(Obligation("history/%s/%s%s/k=%d" % (style, "PrototypedFrom" if proto else "DelegatesTo",
-                                                                "/chain-under-%s" % chain if chain else "", K),
-                                      history_harness(style, proto, K, chain),
+            for chain, sub in [(c, "none") for c in (None,) + tuple(STYLES)] + [(c, sb) for c in (None, "same") for sb in ("inherit", "redefine")]:
+                obs.append(Obligation("history/%s/%s%s%s/k=%d" % (style, "PrototypedFrom" if proto else "DelegatesTo",
+                                                                  "/chain-under-%s" % chain if chain else "",
+                                                                  "" if sub == "none" else "/subclass-" + sub, K),
+                                      history_harness(style, proto, K, chain, sub),
                                       bounds={"history length": K, "prefix style": style, "chain depth": 2 if chain else 1,
-                                              "prefix style of the upper level": chain},
+                                              "prefix style of the upper level": chain, "declaring classes": sub},
                                       leverage="choice feasibility only (compiled code runs concretely)", max_paths=100000))
     return obs
